@@ -34,6 +34,32 @@ let names l = "[" ^ String.concat "," (List.map hname l) ^ "]"
 
 let id_str (i : idv) = Printf.sprintf "%d:%d:%d" (int_of_n i.ity) (int_of_n i.ival) (int_of_n i.ictr)
 
+let tm_str (t : ztime) = match t with
+  | ZNs n -> "ns:" ^ string_of_z n
+  | ZFr (a, b) -> "fr:" ^ string_of_z a ^ "/" ^ string_of_z b
+let otm_str = function Some t -> tm_str t | None -> "-"
+
+let times_str (e : elem) =
+  let b = Buffer.create 16 in
+  Buffer.add_string b "{";
+  List.iter (fun t ->
+      let l = e.eblocks (n_of_int t) in
+      if l <> [] then begin
+        Buffer.add_string b (string_of_int t ^ ":");
+        Buffer.add_string b (String.concat "," (List.map (fun (bl : block) ->
+            (match bl.brtime with Some t -> tm_str t | None -> "ns:0") ^ "+" ^ otm_str bl.bdur) l));
+        Buffer.add_string b ";"
+      end) [1; 2; 3; 4; 5];
+  Buffer.add_string b "}";
+  Buffer.contents b
+
+let extra_str (e : elem) =
+  match e.ekind with
+  | KProg -> " start=" ^ (match e.estart with Some t -> tm_str t | None -> "ns:0") ^ " end=" ^ otm_str e.eend
+  | KObj -> " start=" ^ (match e.estart with Some t -> tm_str t | None -> "ns:0") ^ " dur=" ^ otm_str e.eend
+  | KChan -> " times=" ^ times_str e
+  | _ -> ""
+
 let block_str (e : elem) =
   let b = Buffer.create 16 in
   Buffer.add_string b "{";
@@ -68,7 +94,7 @@ let snapshot w =
        | KStream -> print_string (r StreamChan ^ r StreamPack ^ r StreamTrack)
        | KTrack -> print_string (r TrackStream)
        | KUid -> print_string (r UidTrack ^ r UidPack ^ r UidChan));
-      print_string "\n") es
+      print_string (extra_str e ^ "\n")) es
 
 let show_value = function
   | VUnit -> "ok"
@@ -117,8 +143,13 @@ let run_op w (t : string list) : string =
        | Inl v -> show_value v
        | Inr e -> "exn " ^ exn_name e)
   | ["snapshot"] -> snapshot w; "ok"
-  | _ -> (match Heap_ops2.run_op2 w.st t with
-          | Some (s', r) -> w.st <- s'; r
+  | _ -> (match Heap_ops2.run_op2 (fun n -> Hashtbl.mem w.alias n) (handle w) w.st t with
+          | Some (s', r) ->
+              w.st <- s';
+              (* elements created by the op (copies, helper objects) are known by their numbers *)
+              List.iter (fun (h, _) -> if not (Hashtbl.mem w.alias (hname h)) then Hashtbl.replace w.alias (hname h) h)
+                (drv_elems s');
+              r
           | None -> "bad-command")
 
 let run () =
